@@ -179,7 +179,15 @@ impl<'a> sval_ref::ValueRef<'a> for EmitValue<'a> {
 
         impl<'sval, S: sval::Stream<'sval>> sval::Stream<'sval> for AnyStream<S> {
             fn null(&mut self) -> sval::Result {
-                self.stream.null()
+                // A key is a plain string field; `null` leaves it empty
+                if self.in_map_key {
+                    return self.stream.null();
+                }
+
+                // In value position `null` is an `AnyValue` with no value set rather than
+                // nothing at all, so a `null` element keeps its place in an array
+                self.stream.record_tuple_begin(None, None, None, Some(0))?;
+                self.stream.record_tuple_end(None, None, None)
             }
 
             fn bool(&mut self, value: bool) -> sval::Result {
@@ -448,6 +456,21 @@ mod tests {
                 array_value([int_value(1), int_value(2), int_value(3)]),
                 int_value(3)
             ]),
+            de
+        );
+    }
+
+    #[test]
+    fn encode_array_null_element() {
+        let de = common::AnyValue::decode(encode(emit::Value::capture_sval(&[
+            Some(1),
+            None,
+            Some(3),
+        ])))
+        .unwrap();
+
+        assert_eq!(
+            array_value([int_value(1), common::AnyValue { value: None }, int_value(3)]),
             de
         );
     }
